@@ -77,7 +77,12 @@ async fn handle_http_proxy_connection(
     };
 
     if request.is_connect {
-        send_connect_success(&mut client_conn).await?;
+        if let Err(e) = send_connect_success(&mut client_conn).await {
+            // The client went away: the request is over before the relay starts
+            proxy_stream.send_fin();
+            client.release_session(session).await;
+            return Err(e);
+        }
         // Bytes that arrived together with the CONNECT header already belong to the tunnel
         if !request.body.is_empty() {
             session
@@ -85,7 +90,14 @@ async fn handle_http_proxy_connection(
                 .await?;
         }
     } else {
-        let request_bytes = build_forward_request(&request)?;
+        let request_bytes = match build_forward_request(&request) {
+            Ok(bytes) => bytes,
+            Err(e) => {
+                proxy_stream.send_fin();
+                client.release_session(session).await;
+                return Err(e);
+            }
+        };
         session
             .write_data_frame(proxy_stream.id(), Bytes::from(request_bytes))
             .await?;
